@@ -142,6 +142,11 @@ Definition q_CCyl : Q -> curv3 := CCyl.
 Definition q_CSph : Q -> curv3 := CSph.
 Definition q_CFlat : @curv3 Q := CFlat.
 
+(* factories: rho, cone/helical half width, helical offset and pitch *)
+Definition obs_factory (ax bx ay by_ zmin zmax rs rd turns : Q) : option (list Q) :=
+  let rho := rho_of rt ax bx ay by_ in
+  Some [rho; cone_factory_halfwidth rho rs rd; fst (helical_params zmin zmax turns); snd (helical_params zmin zmax turns)].
+
 Definition bindg {A B} (o : option A) (f : A -> option B) : option B :=
   match o with Some a => f a | None => None end.
 
